@@ -12,6 +12,7 @@ TEXT = {
  'C04': ("Same runs, provenance oracle computed from the tree itself (independent of the crate's chunking): mapped segments start on characters that really come from the stated original location, original characters resolve to their own file and line, statement starts exactly, raw text unmapped, sources/sourcesContent exact, columns=false per line.", "DESIGN.md 5 C04"),
  'C05': ("ReplaceSource objects are built by running the crate's own constructor and replace_with_enforce from MIR with SYMBOLIC start/end; source() from the real code is compared on every path with an independent reference splice (order by start, end, enforce, insertion; clamping). Overlaps, nesting, equal keys and positions beyond the end are solver assignments.", "DESIGN.md 5 C05"),
  'C06': ("Tree jobs with the children / inner source observed on their own: in a ConcatSource every character keeps the (file, content, line, column, name) its child gives it; in a ReplaceSource every output character is compared with an independent re-statement of the rule (inner segment's file/line/name, column advanced only where the recorded content matches, replacement content at the location active at its start with its own or the inherited, translated, name). Found the untranslated-name defect (fixed).", "DESIGN.md 5 C06"),
+ 'C07': ("Tree jobs restricted to the content views: on every path rope() must render to source(), buffer() be its bytes, size() its length, to_writer() write exactly buffer(); a writer that fails after a symbolic number k of bytes must get its error back with only a prefix of buffer() written. ConcatSource's four loops over children and ReplaceSource's rope()/source() splices are interpreted from MIR.", "DESIGN.md 5 C07"),
  'C08': ("SourceMapSource leaves whose map is a mapping-string template with symbolic VLQ digits (assumed consistent with the text): the four stream_chunks_of_source_map_* functions, WithIndices and get_source are interpreted from MIR; on every path the attribution of every character (per line, names dropped, for columns=false) through the stream, through map() and through an enclosing ConcatSource must equal a lookup in the given map decoded by an independent decoder, with sourceRoot applied; declared sources/contents/names must be the map's.", "DESIGN.md 5 C08"),
  'C11': ("Tree jobs: every stream announces source/name indices before use and densely from zero; every map() result is decoded with an independent decoder and must be strictly increasing, on lines >= 1, before the end of source(), with indices inside the tables and a base64/,/; alphabet. Codec jobs: the alphabet and ASCII-ness of every encoder output for all values in the bound.", "DESIGN.md 5 C11"),
  'C13': ("Pairs of equivalent compositions over the SAME symbolic text are built in one symbolic state (nested boxed vs flat ConcatSource; single-child / empty-children ConcatSource, boxing, ReplaceSource without replacements vs the wrapped source) and compared on every path: text, end info, per-position attribution through map() and through the chunk stream.", "DESIGN.md 5 C13"),
